@@ -280,7 +280,7 @@ fn entry(which: usize, bytes: &[u8], audio_start: usize, ch: &Choices, d: &Disk,
                 let mut out = Vec::new();
                 let _ = f.write_subset(&mut out);
             }
-            if let Ok(bl) = flac_codec::metadata::BlockList::read(Cursor::new(bytes)) {
+            if let Ok(bl) = flac_codec::metadata::BlockList::read(src()) {
                 let mut c = Cursor::new(&bytes[audio_start.min(bytes.len())..]);
                 if let Ok(f) = flac_codec::stream::Frame::read(&mut c, bl.streaminfo()) {
                     let _ = expand(&f);
